@@ -118,3 +118,10 @@ Definition spec_out (evs : list price_event) (db : list pline) (universe : list 
 (* commodities mentioned by the events *)
 Definition ev_comms (evs : list price_event) (db : list pline) : list cid :=
   dedup (flat_map (fun e => [e_xc e; e_yc e]) (evs ++ map pline_event db)).
+
+(* the price graph read off the events, and the optimal rates of "one c in target" as of D
+   ([] = no chain): what the correspondence check compares the implementation with *)
+Definition spec_graph (evs : list price_event) (db : list pline) (D : Z) : cid -> list edge :=
+  spec_out evs db (ev_comms evs db) D.
+Definition spec_rates (evs : list price_event) (db : list pline) (D : Z) (target c : cid) : list Qc :=
+  best_rates (spec_graph evs db D) (length (ev_comms evs db)) target c.
